@@ -209,6 +209,11 @@ bool QXmppRosterManager::handleStanza(const QDomElement &element)
         return false;
     }
 
+    // roster requests are not answered here: leave them to the client's error reply
+    if (element.attribute(u"type"_s) == u"get") {
+        return false;
+    }
+
     QXmppRosterIq rosterIq;
     rosterIq.parse(element);
 
